@@ -67,6 +67,9 @@ impl Model for M {
     fn fresh(&self) -> S {
         let mut w = std_world();
         w.insert(A, PlainAcc::contract(&[0x00]).with_balance(U256::from(10)));
+        for init in [vec![0x00u8], hex::decode(EOF_STOP).unwrap()] {
+            w.insert(create2_addr(A, 9, &init), PlainAcc { balance: U256::MAX, ..Default::default() });
+        }
         let mut db = to_cachedb(&w);
         db.insert_account_info(EOFC, revm::primitives::AccountInfo::from_bytecode(Bytecode::new_raw(Bytes::from(hex::decode(EOF_STOP).unwrap()))));
         let mut ctx = EvmContext::new(db);
@@ -90,7 +93,7 @@ impl Model for M {
                     }
                 }
             }
-            for sc in 0..2u8 {
+            for sc in 0..3u8 {
                 for val in 0..3u8 {
                     for init in 0..2u8 {
                         v.push(Op::Create { scheme: sc, value: val, init });
@@ -98,7 +101,8 @@ impl Model for M {
                 }
             }
             if self.spec.is_enabled_in(SpecId::OSAKA) {
-                for val in 0..3u8 {
+                // values 3..=5: the same endowments onto an address that already holds 2^256-1
+                for val in 0..6u8 {
                     v.push(Op::EofCreate { value: val });
                 }
             }
@@ -148,7 +152,12 @@ impl Model for M {
             Op::Create { scheme: sc, value, init } => {
                 let inputs = CreateInputs {
                     caller: A,
-                    scheme: if *sc == 0 { CreateScheme::Create } else { CreateScheme::Create2 { salt: U256::from(7) } },
+                    // scheme 2: CREATE2 onto an address that already holds 2^256-1 (endowment overflow)
+                    scheme: match *sc {
+                        0 => CreateScheme::Create,
+                        1 => CreateScheme::Create2 { salt: U256::from(7) },
+                        _ => CreateScheme::Create2 { salt: U256::from(9) },
+                    },
                     value: val(*value),
                     init_code: if *init == 0 { Bytes::from_static(&[0x00]) } else { Bytes::from(hex::decode(EOF_STOP).unwrap()) },
                     gas_limit: 100_000,
@@ -172,9 +181,9 @@ impl Model for M {
             Op::EofCreate { value } => {
                 let inputs = EOFCreateInputs {
                     caller: A,
-                    value: val(*value),
+                    value: val(*value % 3),
                     gas_limit: 100_000,
-                    kind: EOFCreateKind::Opcode { initcode: eof_initcode(), input: Bytes::new(), created_address: address!("00000000000000000000000000000000000e0fc1") },
+                    kind: EOFCreateKind::Opcode { initcode: eof_initcode(), input: Bytes::new(), created_address: if *value >= 3 { RICH } else { address!("00000000000000000000000000000000000e0fc1") } },
                 };
                 match s.ctx.make_eofcreate_frame(self.spec, &inputs).map_err(|e| ("db-error".to_string(), format!("{e:?}")))? {
                     FrameOrResult::Frame(f) => {
